@@ -91,8 +91,20 @@ def w_amuset(ctx, rng, idx):
     ctx.describe({'op': 'tgedmd.amuset_hosvd', 'd': d, 'd2': d2, 'm': m, 'modes': [[type(f).__name__ for f in fl] for fl in bl], 'reversible': rev, 'reweight': w is not None,
                   'return_option': opt, 'rel_threshold': relthr, 'num_eigvals': str(nev)})
     tags = ['reversible' if rev else 'nonreversible', 'square_sigma' if d2 == d else 'nonsquare_sigma']
-    call('tgedmd.amuset_hosvd', quiet, tg.amuset_hosvd, X, bl, sigma, prop=P, tags=tags, refusals=(np.linalg.LinAlgError,), b=b, reweight=w, num_eigvals=nev, threshold=1e-8,
-         return_option=opt, rel_threshold=relthr)
+    thr = [1e-8, 1e-8, 1e-10, 1e-6][int(rng.integers(0, 4))]
+    extra = {}
+    if rng.random() < 0.25:
+        extra['max_rank'] = [10 ** 4, 50][int(rng.integers(0, 2))]
+    if rng.random() < 0.15:
+        extra['output_freq'] = int(rng.integers(1, 4))
+    call('tgedmd.amuset_hosvd', quiet, tg.amuset_hosvd, X, bl, sigma, prop=P, tags=tags, refusals=(np.linalg.LinAlgError,), b=b, reweight=w, num_eigvals=nev, threshold=thr,
+         return_option=opt, rel_threshold=relthr, **extra)
+    if rng.random() < 0.4:
+        # the very same data / basis / diffusion arrays again with the other generator form and another weighting (second call)
+        b2 = rng.standard_normal((d, m)) if rev else None
+        w2 = None if w is not None else rng.uniform(0.5, 2.0, size=m)
+        call('tgedmd.amuset_hosvd', quiet, tg.amuset_hosvd, X, bl, sigma, prop=P, tags=['nonreversible' if rev else 'reversible', tags[1], 'second_call'], refusals=(np.linalg.LinAlgError,),
+             b=b2, reweight=w2, num_eigvals=np.inf, threshold=thr, return_option='eigenfunctionevals', rel_threshold=relthr)
     if idx < 3:
         ctx.sample({'workload': 'amuset', 'state_dim': d, 'sigma_shape': [d, d2, m], 'modes': [[type(f).__name__ for f in fl] for fl in bl], 'reversible': rev, 'reweight': w is not None,
                     'return_option': opt})
